@@ -244,7 +244,7 @@ def specStep (f0 : Files) (s : SpecD) : Ev → Option SpecD
 /-- the judgement on one event: a preprocessed message has exactly the documented outputs under the
 configuration in force (stated for configurations without a repeated virtualdomains key) -/
 def specJudge (s : SpecD) : Ev → Bool
-  | .msg todo out => !(noDupKeys s.cfg.vdoms) || out == specTodo s.cfg todo
+  | .msg todo out => !(noDupKeys s.cfg.vdoms) || decide (out = specTodo s.cfg todo)
   | _ => true
 
 /-- the property on a whole observed trace -/
